@@ -20,7 +20,7 @@ THEOREMS = ["propagate_lfp", "propagate_order_irrelevant", "flatten_labels_nodup
             "erase_correct", "machine_exec_sound", "interp_sound", "return_resume", "return_reeval_counterexample",
             "panic_resume_counterexample", "panic_resume_partial", "flatten_correct_defer_partial", "callDefF_sound",
             "andor_flat", "args_order", "captured_cells_shared", "captured_write_visible", "boxing_rule_sufficient",
-            "boxing_header_skipped_counterexample"]
+            "boxing_header_skipped_counterexample", "args_order_all", "args_order_first_only_counterexample"]
 
 MODV = 1009
 ZERO = 12          # pseudo variable: constant 0
@@ -337,9 +337,20 @@ class Gen:
                 site = self.new_yield() if kd == "yt" and self.nsites < 60 else None
                 args.append(("yt" if site is not None else "tr", v, a, site))
         fin = self.new_act(dst=self.dstvar(), x=args[0][1], y=args[1][1], k=r.randrange(0, 30), p=1)
-        go = r.choice(["direct", "variadic", "method"])
+        kinds_ = ["direct", "variadic", "method", "go"] + (["defer", "defer"] if ctx.get("dfn") else [])
+        go = r.choice(kinds_)
         self.count("multi:%s:%d" % (go, sum(a[0] == "yt" for a in args)))
-        return ("MULTI", args, fin, go)
+        if go == "defer":
+            # `defer sinkD(id, e1, …)`: the arguments are evaluated (in order) at the defer statement, the call prints
+            # its id when the function returns
+            self.dops.append(dict(ops=[("pc", len(self.dops))], go="multi"))
+            return ("MULTI", args, fin, go, len(self.dops) - 1)
+        if go == "go":
+            # `go sinkG(e1, …)`: the arguments are evaluated at the go statement; the new goroutine does nothing
+            return ("MULTI", args, fin, go, None)
+        # a call with a blocking argument is itself marked Blocking (markBlocking marks the whole visitor stack), so the
+        # outer call gets a resume block although its callee never suspends
+        return ("MULTI", args, fin, go, self.new_localcall(fin))
 
     def new_localcall(self, actid):
         """call of a local closure whose body is action `actid` (call through a function-typed variable)"""
@@ -544,7 +555,10 @@ def call_graph(g, with_yields):
                 intr.add(me)
             if s[0] == "MULTI":
                 edges.append((me, "main.tr"))
-                edges.append((me, {"direct": "main.pick", "variadic": "main.pickV", "method": "main.T.Pick"}[s[3]]))
+                if s[3] in ("direct", "variadic", "method"):
+                    edges.append((me, {"direct": "main.pick", "variadic": "main.pickV", "method": "main.T.Pick"}[s[3]]))
+                elif s[3] == "defer":
+                    edges.append((me, "main.sinkD"))
                 if with_yields and any(a[0] == "yt" for a in s[1]):
                     edges.append((me, "main.yt"))
             if s[0] == "DEFER":
@@ -776,6 +790,12 @@ def enc_stmt(g, s, blocking_fn):
                 out += ["S", "A", str(a)]
             if site is not None:
                 out += ["S", "C", str(site)]
+        if s[3] == "defer":     # `$deferred.push([sinkD, [args]])`: no call here, hence no resume block
+            return out + ["A", str(2000 + s[4])]
+        if s[3] == "go":
+            return out + ["K"]
+        if any(site is not None for _, _, _, site in s[1]):
+            return out + ["C", str(s[4])]
         return out + ["A", str(s[2])]
     if k == "AC":       # a call through a closure variable is a (non-suspending) blocking call site; pointer access is an action
         return ["C", str(s[4])] if s[4] is not None else ["A", str(s[1])]
@@ -811,7 +831,7 @@ def enc_prog(g, blocking_fn):
     finfo = tab([(1, 1 if f["dfn"]["named"] else 0, f["dfn"]["nres"]) if f["dfn"] else (0, 0, 0) for f in g.fns])
 
     def op(o):
-        return {"m": "1.%d.%d.%d", "y": "2.%d", "p": "3.%d.%d", "r": "4"}[o[0]] % tuple(o[1:])
+        return {"m": "1.%d.%d.%d", "y": "2.%d", "p": "3.%d.%d", "r": "4", "pc": "5.%d"}[o[0]] % tuple(o[1:])
     dops = ";".join(",".join(op(o) for o in cl["ops"]) for cl in g.dops) if g.dops else "-"
     return "%s/%s/%s/%s/%s/%s" % (acts, conds, calls, fns, finfo, dops)
 
@@ -843,6 +863,8 @@ func yt(site, id, x int) int { println("t", id, x); %(Y)s; return x }
 func pick(k, a, b int, rest ...int) int { return (a + 2*b + k) %% 1009 }
 func pickV(k int, xs ...int) int { return (xs[0] + 2*xs[1] + k) %% 1009 }
 func (t T) Pick(k, a, b int, rest ...int) int { return (a + 2*b + k + t.pad) %% 1009 }
+func sinkD(id int, xs ...int) { println("s", id) }
+func sinkG(xs ...int) {}
 
 func leafD(site, x, k int) int { %(Y)s; return (x + k) %% 1009 }
 
@@ -1100,9 +1122,14 @@ class Render:
                 else:
                     es.append("tr(%d, %s)" % (a, self.vn(v)))
             dst, x, y, kk, p, ys = self.g.acts[s[2]]
-            callee = {"direct": "pick", "variadic": "pickV", "method": "tv.Pick"}[s[3]]
-            self.emit(ind, "%s = %s(%d, %s)" % (self.vn(dst), callee, kk, ", ".join(es)))
-            self.emit(ind, 'println("a", %d, %s)' % (s[2], self.vn(dst)))
+            if s[3] == "defer":
+                self.emit(ind, "defer sinkD(%d, %s)" % (s[4], ", ".join(es)))
+            elif s[3] == "go":
+                self.emit(ind, "go sinkG(%s)" % ", ".join(es))
+            else:
+                callee = {"direct": "pick", "variadic": "pickV", "method": "tv.Pick"}[s[3]]
+                self.emit(ind, "%s = %s(%d, %s)" % (self.vn(dst), callee, kk, ", ".join(es)))
+                self.emit(ind, 'println("a", %d, %s)' % (s[2], self.vn(dst)))
         elif k == "HOLDDECL":
             self.emit(ind, "var %s func() int" % s[1])
         elif k == "LC":
@@ -1415,20 +1442,38 @@ def run_batch(chk, progs_, tier, rng, label, do_ities=True, sigfn=None, scheds_o
         # P under Node
         po = canon(*PR.observe_js(res["p"]))
         op = "prog=%s variant=P sites=%d" % (pid, g.nsites)
-        chk.compare("P-direct-form", [op], [po], [ref + " |exit0"], spec=[spec], kind=lambda o, c: "P")
+        if po.endswith("|timeout"):
+            # a run that exceeded even the 4x retry limit is reported as a failing input, never as a broken tie
+            chk.add_case("P-direct-form", op, kindkey="timeout")
+            chk.add_mismatch("P-direct-form", op, po, spec, signature=None)
+        else:
+            chk.compare("P-direct-form", [op], [po], [ref + " |exit0"], spec=[spec], kind=lambda o, c: "P")
         if po != spec:
             chk.notes.append({"op": op, "source": render(g, False)["main.go"]})
         # P' under Node for every schedule
         ops, impl, model = [], [], []
+        if len(res["q"]) != len(scheds):
+            # P' did not compile (one error record instead of one run per schedule): a failing input, not a tie break
+            err = canon(*PR.observe_js(res["q"][0])) if res["q"] else " |no-result"
+            chk.add_mismatch("P-yield-schedules", "prog=%s variant=Pyield (all schedules)" % pid, err, spec, signature=None)
+            chk.notes.append({"prog": pid, "source": srcq})
+            continue
+        anyfail = False
         for s, r, m in zip(scheds, res["q"], mach):
+            o = canon(*PR.observe_js(r))
+            if o.endswith("|timeout"):
+                anyfail = True
+                chk.add_case("P-yield-schedules", "prog=%s variant=Pyield sched=%s" % (pid, s), kindkey="timeout")
+                chk.add_mismatch("P-yield-schedules", "prog=%s variant=Pyield sched=%s" % (pid, s), o, spec, signature=None)
+                continue
             ops.append("prog=%s variant=Pyield sched=%s" % (pid, s))
-            impl.append(canon(*PR.observe_js(r)))
+            impl.append(o)
             mt, _, ms = m.partition(" #susp=")
             model.append(mt + " |exit0")
             chk.count("suspensions:%s" % ("0" if ms == "0" else "1-3" if int(ms) <= 3 else "4-15" if int(ms) <= 15 else "16+"))
         chk.compare("P-yield-schedules", ops, impl, model, spec=[spec] * len(ops), signature=sigfn,
                     kind=lambda o, c: "Pyield", nontrivial=lambda o, c: "1" in o.split("sched=")[1])
-        if any(a != spec for a in impl):
+        if anyfail or any(a != spec for a in impl):
             chk.notes.append({"prog": pid, "source": srcq})
         chk.extra["schedules_exhaustive_programs"] = chk.extra.get("schedules_exhaustive_programs", 0) + (1 if exhaustive else 0)
         if not do_ities:
@@ -1543,6 +1588,42 @@ def sig_panic(op, impl, spec):
     return None
 
 
+WITNESS_STACK = """package main
+
+var clo = func(x int) int { return x + 1 }
+
+func main() {
+	for v := 0; v < 2; v = clo(v) {
+		for k := 0; k < 2; k++ {
+			f := func() int { return k }
+			g := func() int { return k + 1 }
+			_, _ = f, g
+		}
+		if v == 0 {
+			continue
+		}
+		println("end", v)
+	}
+}
+"""
+
+
+def replay_stack_witness(chk):
+    """regression case of the repaired defect 3f9da12: the analysis' visitor stack was left unbalanced by function
+    literals, a later `continue` was attributed to the already finished nested loop and not made resumable
+    (`case N:` inside a plain `if`, invalid JavaScript)"""
+    from . import progs as PR
+    r = PR.run_jobs([{"id": "witstack", "files": {"main.go": WITNESS_STACK}, "variants": ["plain"], "native": True}])[0]["runs"]
+    impl = canon(*PR.observe_js(r["plain"]))
+    spec = canon(*PR.observe_native(r["native"]))
+    if spec != "end 1 |exit0":
+        raise RuntimeError("witness program does not behave as expected natively: " + spec)
+    op = "prog=witstack variant=P (no yields; continue after two function literals in a nested loop, blocking post statement)"
+    chk.add_case("witness-analysis-stack", op, kindkey="witness")
+    if impl != spec:
+        chk.add_mismatch("witness-analysis-stack", op, impl, spec, signature=None)
+
+
 def run(tier, seed):
     chk = C.Check("C02", tier, seed)
     chk.rule = ("a MiniGo term (functions over 8 locals/4 globals; act/if-chains/for in 4 shapes/switch/labelled break+continue/"
@@ -1587,9 +1668,10 @@ def run(tier, seed):
     for i in range(0, len(progs_), bs):
         run_batch(chk, progs_[i:i + bs], tier, chk.rng, "s%dp%d_" % (seed, i))
     # replay of the recorded defect (and its non-suspending twin, which must behave)
-    run_batch(chk, [witness_panic_program()], tier, chk.rng, "witpanic", do_ities=False, sigfn=sig_panic,
-              scheds_override=["0", "1"])
-    if chk.tie_breaks and not chk.mismatches and tier == "quick":
+    run_batch(chk, [witness_panic_program()], tier, chk.rng, "witpanic", do_ities=False, scheds_override=["0", "1"])
+    replay_stack_witness(chk)
+    unknown = [m for m in chk.mismatches if chk.known_match(m.get("signature")) is None]
+    if chk.tie_breaks and not unknown and tier == "quick":
         # an internal tie broke: widen the observable-level search before reporting
         C.log("[C02] internal tie broken (%s); widening the program search" % sorted(chk.tie_breaks))
         more = []
